@@ -21,6 +21,7 @@ theorem CT.toS {ps : Pieces} (h : CT ps) : CS ps := fun pw k _ => h pw k
 theorem okK_orElse' {h k : HK} (hh : okK h = true) (hk : okK k = true) : okK (h.orElse k) = true := okK_orElse h k hh hk
 theorem notQ_orElse' {h k : HK} (hh : notQ h = true) (hk : notQ k = true) : notQ (h.orElse k) = true := by
   cases h <;> simp_all [HK.orElse]
+theorem notQ_of_okK' {k : HK} (h : okK k = true) : notQ k = true := notQ_of_okK k h
 theorem okK_ite {c : Prop} [Decidable c] {a b : Pieces} (ha : okK (hK a) = true) (hb : okK (hK b) = true) :
     okK (hK (if c then a else b)) = true := by split <;> assumption
 
@@ -41,10 +42,10 @@ syntax "ev" ("[" Lean.Parser.Tactic.simpLemma,* "]")? : tactic
 macro_rules
   | `(tactic| ev) => `(tactic|
     simp (config := {failIfUnchanged := false, maxDischargeDepth := 8}) [ctx, ctxP, isMark, hK, hP, S, notE, okK_ch, notQ_ch, okNext_some, endK, endKs, lastWord, isWord,
-      SeaQ.Scan.isDigit, hK_append, endKs_append, ctx_app, okK_orElse', notQ_orElse', *])
+      SeaQ.Scan.isDigit, hK_append, endKs_append, ctx_app, okK_orElse', notQ_orElse', notQ_of_okK', *])
   | `(tactic| ev [$ts,*]) => `(tactic|
     simp (config := {failIfUnchanged := false, maxDischargeDepth := 8}) [ctx, ctxP, isMark, hK, hP, S, notE, okK_ch, notQ_ch, okNext_some, endK, endKs, lastWord, isWord,
-      SeaQ.Scan.isDigit, hK_append, endKs_append, ctx_app, okK_orElse', notQ_orElse', $ts,*, *])
+      SeaQ.Scan.isDigit, hK_append, endKs_append, ctx_app, okK_orElse', notQ_orElse', notQ_of_okK', $ts,*, *])
 
 /-! ## leaves -/
 
